@@ -82,6 +82,18 @@ def cases(tier, seed):
             yield ('spec', 'fb', name, gi, seed)
         for zi in range(6):
             yield ('single', 'fb', name, zi, seed)
+    # larger scope: records beyond a few thousand samples whose character changes late (frequency sources must see
+    # the whole record), more than 8 phases; and integer / float32 typed copies of short records
+    for name in (('late-burst', 4096), ('chirp', 3000)):
+        for gi in (0, 1, 2, 3):
+            yield ('spec-long', 'gen', name, gi, seed)
+    for idx in signals.fa_indices(4, 5, 5):
+        k += 1
+        if k % 4 == 0:
+            yield ('spec', 'fa-int', idx, (k * 37) % len(GRID), seed)
+    for name in signals.fb_names((32,))[:12]:
+        k += 1
+        yield ('spec', 'fb-f32', name, (k * 53) % len(GRID), seed)
     for si in range(b['sched_signals']):
         for nph in range(1, b['nph'] + 1):
             seen = set()
@@ -111,7 +123,26 @@ def decode_case(c):
 def signal_of(case):
     if case[1] == 'fa':
         return signals.fa_signal(case[2], 4, case[4])
+    if case[1] == 'fa-int':
+        return np.array(case[2], dtype=float)
+    if case[1] == 'gen':
+        kind, n = case[2]
+        t = np.arange(n) / n
+        if kind == 'late-burst':
+            x = np.cos(2 * np.pi * 20 * t) + 0.5 * t
+            x[int(0.7 * n):] += 0.8 * np.cos(2 * np.pi * 400 * t[int(0.7 * n):])
+            return x
+        return np.cos(2 * np.pi * (30 * t + 200 * t ** 2)) + 0.3 * np.cos(2 * np.pi * 7 * t)
     return signals.fb_signal(case[2], case[4])
+
+
+def typed_input(case, x):
+    """The array as handed to the library: integer- or float32-typed copies for the dtype families."""
+    if case[1] == 'fa-int':
+        return x.astype(np.int64 if case[4] % 2 == 0 else np.int32)
+    if case[1] == 'fb-f32':
+        return x.astype(np.float32)
+    return x.copy()
 
 
 def spec_mask_imf(r, z, amp, nph, opts=None):
@@ -165,7 +196,7 @@ def spec_freqs(x, source, step, cap, opts=None):
     return np.array([z0 / step ** k for k in range(cap)]), cap
 
 
-def spec_compare(x, got, source, mode, ampkind, step, nph, cap, sift_thresh=1e-8, opts=None):
+def spec_compare(x, got, source, mode, ampkind, step, nph, cap, sift_thresh=1e-8, opts=None, rtol=1e-10):
     """Layer-by-layer comparison with the masking rule.
 
     Layer k of the specification is computed from the residual built from the implementation's OWN first k columns,
@@ -173,7 +204,7 @@ def spec_compare(x, got, source, mode, ampkind, step, nph, cap, sift_thresh=1e-8
     extrema are rounding noise - that is inherently ill-conditioned).  Returns (problem | None, n_layers, freqs)."""
     X = x[:, None].astype(float)
     freqs, cap = spec_freqs(x, source, step, cap, opts)
-    scale = 1e-10 * (1 + np.max(np.abs(x)))
+    scale = rtol * (1 + np.max(np.abs(x)))
     ncols = got.shape[1]
     for k in range(ncols):
         r = X - got[:, :k].sum(axis=1)[:, None]
@@ -218,7 +249,7 @@ def impl_kwargs(source, mode, ampkind, step, nph, cap, opts=None):
 def check_case(case):
     capture()
     kind = case[0]
-    if kind == 'spec':
+    if kind in ('spec', 'spec-long'):
         with forkpool.installed(forkpool.SerialMP()):
             return check_spec(case)
     if kind == 'single':
@@ -231,17 +262,24 @@ def check_spec(case):
     from emd.support import EMDSiftCovergeError
     x = signal_of(case)
     N = len(x)
-    source, mode, ampkind, step, nph, cap = GRID[case[3]]
-    opts = OPTSETS[(case[3] // 7) % len(OPTSETS)]
+    if case[0] == 'spec-long':
+        source, mode, ampkind, step, nph, cap = [('zc', 'ratio_imf', 'scalar', 2, 4, 3), ('if', 'ratio_sig', 'scalar', 2, 2, 2),
+                                                  ('zc', 'abs', 'scalar', 3, 12, 2), (0.12, 'ratio_sig', 'array', 2, 9, 3)][case[3]]
+        opts = None
+    else:
+        source, mode, ampkind, step, nph, cap = GRID[case[3]]
+        opts = OPTSETS[(case[3] // 7) % len(OPTSETS)]
+    if case[1] == 'fb-f32':
+        x = x.astype(np.float32).astype(float)      # the values the library actually receives
     tag = 'x=%s mask_freqs=%r mode=%s amp=%s step=%g nphases=%d max_imfs=%d options=%r' % (
         x.tolist() if N <= 12 else 'F_B%r' % (case[2],), source, mode, ampkind, step, nph, cap, opts)
     viols = []
     kw = impl_kwargs(source, mode, ampkind, step, nph, cap, opts)
     kw_before = impl_kwargs(source, mode, ampkind, step, nph, cap, opts)
     try:
-        got, gfreq = _orig['mask_sift'](x.copy(), **kw)
+        got, gfreq = _orig['mask_sift'](typed_input(case, x), **kw)
         # the same argument objects a second time: nothing handed in may have been changed by the first call
-        got2, gfreq2 = _orig['mask_sift'](x.copy(), **kw)
+        got2, gfreq2 = _orig['mask_sift'](typed_input(case, x), **kw)
         for k_ in ('mask_amp', 'mask_freqs'):
             if isinstance(kw_before[k_], np.ndarray) and not np.array_equal(kw[k_], kw_before[k_]):
                 viols.append(('spec:argument-modified', '%s: the %s array passed in was changed by the call' % (tag, k_)))
@@ -269,7 +307,9 @@ def check_spec(case):
                        viols=[] if got.ndim == 2 and got.shape[0] == N else [('spec:shape', '%s: result shape %r' % (tag, got.shape))])
     try:
         with np.errstate(all='ignore'):
-            bad, n, wfreq = spec_compare(x, got, source, mode, ampkind, step, nph, cap, opts=opts)
+            # single-precision input: statistics of the signal (its std) are only known to float32 precision
+            bad, n, wfreq = spec_compare(x, got, source, mode, ampkind, step, nph, cap, opts=opts,
+                                         rtol=1e-5 if case[1] == 'fb-f32' else 1e-10)
     except EMDSiftCovergeError:
         return Outcome(cls='spec-skipped', nontrivial=False)
     if bad and bad[0] == 'GUARD':
@@ -278,7 +318,7 @@ def check_spec(case):
         return out
     if bad:
         viols.append(('spec:%s' % bad[0], '%s: %s' % (tag, bad[1])))
-    if len(gfreq) < got.shape[1] or not np.allclose(gfreq[:len(wfreq)], wfreq[:len(gfreq)], rtol=1e-12, atol=0):
+    if len(gfreq) < got.shape[1] or not np.allclose(gfreq[:len(wfreq)], wfreq[:len(gfreq)], rtol=1e-9, atol=1e-12):
         viols.append(('spec:mask-freqs', '%s: returned mask frequencies %s, rule gives %s' % (tag, gfreq.tolist(), wfreq.tolist())))
     n = got.shape[1]
     return Outcome(cls='spec:%s' % ('multi' if n >= 2 else 'single'), transitions=n * nph + 1, viols=viols, nontrivial=n >= 2)
